@@ -29,7 +29,16 @@ def gen_base_scenario(seed, tier="quick"):
     opts = {"natural_fault_prob": 1.0 if natural else 0.0,
             "nr_max": 24 if tier == "thorough" else 16,
             "nrho_max": 12 if tier == "thorough" else 8}
-    big = (not natural) and rng.random() < 0.04
+    size_r = rng.random()
+    big = (not natural) and size_r < 0.04
+    medium = (not natural) and 0.04 <= size_r < 0.09
+    if medium:
+        # medium tables (hundreds to thousands of rows): thresholds counted in lines or in a few tens of KB
+        import math
+        opts["nr_fixed"] = int(math.exp(rng.uniform(math.log(100), math.log(5000))))
+        opts["nrho_fixed"] = int(math.exp(rng.uniform(math.log(100), math.log(5000))))
+        opts["targets"] = [t for t in mg.ALL_TARGETS if t not in mg.BINARY_TARGETS]
+        opts["max_species"] = 3
     if big:
         # large-table sub-batch: output sizes from tens of KB to several MB, so that behaviour which
         # depends on how much has been buffered (flush thresholds, chunking) is reached as well
@@ -41,7 +50,7 @@ def gen_base_scenario(seed, tier="quick"):
         opts["targets"] = [t for t in mg.ALL_TARGETS if t not in mg.BINARY_TARGETS]
         opts["max_species"] = 3
         opts["underspecified_prob"] = 0.0
-    if rng.random() < 0.22 and not big:
+    if rng.random() < 0.22 and not big and not medium:
         from . import apimodel
         spec = apimodel.gen_api_model(rng, natural=natural, tier=tier)
         return {"property": PROP, "seed": seed, "tier": tier, "potsim": 1, "model": spec, "route": "api",
@@ -76,6 +85,9 @@ def gen_base_scenario(seed, tier="quick"):
         sc["shared_fp"] = False
     if big:
         sc["big"] = True
+    if medium:
+        sc["big"] = True
+        sc["medium"] = True
     return sc
 
 
@@ -110,6 +122,11 @@ def choose_ks(base, N, roles, tier, rng):
         bnd = [i for i in range(1, N) if roles[i] != roles[i - 1]]
         for i in bnd[-2:]:
             ks.update([i, i + 1])
+        if base.get("medium"):
+            ks.update(rng.randint(1, N) for _ in range(6))
+            for i in bnd[:6]:
+                ks.update([i, i + 1])
+            return sorted(ks)[:14] if tier == "quick" else sorted(ks)
         return sorted(ks)[:8] if tier == "quick" else sorted(ks)
     if tier == "thorough":
         return list(range(1, N + 1))
@@ -571,7 +588,9 @@ def run_job(job):
     bump("models")
     bump("target=" + meta["target"])
     bump("route=" + base["route"])
-    if base.get("big"):
+    if base.get("medium"):
+        bump("probe:medium-table-model")
+    elif base.get("big"):
         bump("probe:large-table-model")
         if ref.get("attempts"):
             bump("large-table-bytes-total", ref["attempts"][0].get("delta_len", 0))
@@ -902,7 +921,7 @@ COMPONENTS = {
                   "sys.argv / stdout / stderr of potable", "evaluation failures (EvalPoint wrappers on the model functions)"],
     "stubbed": [],
 }
-EXPECTED_PROBES = ["large-table-model", "fault-at-first-evaluation", "fault-at-last-evaluation", "fault-at-block-boundary", "fault-in-derivative-evaluation",
+EXPECTED_PROBES = ["medium-table-model", "large-table-model", "fault-at-first-evaluation", "fault-at-last-evaluation", "fault-at-block-boundary", "fault-in-derivative-evaluation",
                    "fault-while-reading-workbook", "retry-after-failed-attempt", "retry-after-failed-excel-write", "shared-fp-across-attempts"]
 WALL_CAP = {"quick": 240.0, "thorough": 3300.0}
 STATE_MEASURE = "distinct (target or writer, route, site of the failing function, position class first/last/block-boundary/interior, attempt index within the retry plan, via .workbook or write) combinations in which a fault fired"
